@@ -239,13 +239,16 @@ Definition shape_B (s : st) (e : ev) (q : positive) : bool :=
       negb (bool_decide (q = root)) && negb (bool_decide (pgs_of (idx s) q = []))
   | None => false
   end.
-(* race A: a Sync on a queue the lister still shows Closing, index empty, while the
-   server already shows Open *)
+(* race A and its mirror images (finding C13-stale-lister-sync-overwrites-open): a request
+   that is neither Open nor Close is processed for a queue whose lister object is NOT the
+   server's object — the state computed from the stale view is applied without any
+   precondition (Closing+empty index -> Closed over an Open; "" -> Open over a Closed; ...).
+   With an up-to-date lister F_A cannot fail (theorem sync_moves), so this is exactly the
+   mechanism *)
 Definition shape_A (s : st) (e : ev) (q : positive) : bool :=
   match proc_of s e with
   | Some (r, v) =>
-      bool_decide (r_q r = q) && sync_like (r_act r) && bool_decide (q_state v = SClosing) &&
-      bool_decide (sst (srv s) q = Some SOpen) && bool_decide (pgs_of (idx s) q = [])
+      bool_decide (r_q r = q) && sync_like (r_act r) && negb (bool_decide (lst s !! q = srv s !! q))
   | None => false
   end.
 
@@ -339,30 +342,32 @@ Definition law_children_follow_closed_parent (s' : st) : bool :=
    step that is the finding's mechanism; every other quiescent failure is reported. *)
 Definition mem_pos (c : positive) (l : list positive) : bool := existsb (Pos.eqb c) l.
 
-(* C13-quiescent-marked-child-stuck: (a) a propagated Open for c is processed while the
-   lister shows c open (plain sync: nothing written, marker kept); (b) p is re-opened while
-   the lister does not show the marker a server-child carries; (c) see below *)
+(* C13-quiescent-marked-child-stuck — the steps that are its mechanism, per child:
+   (a) a propagated Open for c is processed while the lister shows c open (plain sync:
+       nothing written, marker kept);
+   (b) the Sync that should heal c (enqueued when c's marker / parent changed) is processed
+       while the lister shows c closed and marked but still shows the re-opened parent closed /
+       closing: nothing happens and nothing re-syncs c later;
+   (c) c's Open is refused because the lister still shows the re-opened parent closed /
+       closing (retried; given up when the retry budget is exhausted).
+   "p re-opened before the lister shows c's marker" alone is NOT an excuse: since b628b4b the
+   delivery of the marker re-syncs c, so a stuck child after that shape alone is a regression. *)
+Definition stale_closed_parent (s : st) (v : qobj) : bool :=
+  match q_parent v with
+  | Some p => match sst (lst s) p with Some x => is_closedish x | None => false end &&
+              negb (match sst (srv s) p with Some x => is_closedish x | None => true end)
+  | None => false
+  end.
 Definition exc_stuck (s : st) (e : ev) : list positive :=
   match proc_of s e with
   | Some (r, v) =>
       match r_act r with
       | AOpen =>
-          (if bool_decide (r_ev r = EvNone) && (bool_decide (q_state v = SOpen) || bool_decide (q_state v = SEmpty))
-           then [r_q r] else []) ++
-          (* (c) the child's Open is refused because the lister still shows the re-opened parent
-             closed / closing (retried; given up when the retry budget is exhausted) *)
-          (if match q_parent v with
-              | Some p => match sst (lst s) p with Some x => is_closedish x | None => false end &&
-                          negb (match sst (srv s) p with Some x => is_closedish x | None => true end)
-              | None => false
-              end
-           then [r_q r] else []) ++
-          flat_map (fun cco : positive * qobj =>
-                      if bool_decide (q_parent (snd cco) = Some (r_q r)) && cbp_true (q_ann (snd cco)) &&
-                         negb (match lst s !! fst cco with Some lo => cbp_true (q_ann lo) | None => false end)
-                      then [fst cco] else [])
-                   (map_to_list (srv s))
-      | _ => []
+          if (bool_decide (r_ev r = EvNone) && (bool_decide (q_state v = SOpen) || bool_decide (q_state v = SEmpty))) ||
+             stale_closed_parent s v
+          then [r_q r] else []
+      | AClose => []
+      | _ => if is_closedish (q_state v) && cbp_true (q_ann v) && stale_closed_parent s v then [r_q r] else []
       end
   | None => []
   end.
@@ -393,6 +398,13 @@ Definition exc_open (s : st) (e : ev) : list positive :=
       end
   | None => []
   end.
+
+(* an excuse expires: once a caught-up state is reached in which the child is NOT in the bad
+   shape, the mechanism that occurred earlier no longer explains anything *)
+Definition prune_stuck (exc : list positive) (s' : st) : list positive :=
+  if caught_up s' then filter (stuck_child s') exc else exc.
+Definition prune_open (exc : list positive) (s' : st) : list positive :=
+  if caught_up s' then filter (open_child_under_closed_parent s') exc else exc.
 
 (* X = every quiescent failure is one of the known class; Y = no quiescent failure of the known class *)
 Definition law_stuck_X (exc : list positive) (s' : st) : bool :=
